@@ -9,11 +9,11 @@ import (
 	"os"
 	"os/exec"
 	"os/signal"
-	"syscall"
 	"runtime"
 	"strings"
 	"sync"
 	"sync/atomic"
+	"syscall"
 	"time"
 
 	tea "github.com/charmbracelet/bubbletea"
@@ -82,6 +82,12 @@ func scenFold(out *scenOut, r *rng, thorough bool) {
 			for i := 0; i < reps; i++ {
 				sendThenEnd(out, cause, slow, i)
 			}
+		}
+	}
+	for _, end := range []string{"order", "kill"} {
+		for _, procs := range []int{1, 4} {
+			runtime.GOMAXPROCS(procs)
+			sendsDuringExec(out, end, procs)
 		}
 	}
 	for i := 0; i < runs; i++ {
@@ -163,6 +169,95 @@ func sendThenEnd(out *scenOut, cause, slow string, idx int) {
 		}
 		out.fail(finding{Property: "C01", Class: "new", What: "Run did not return the model of the last Update", Input: desc,
 			Expected: fmt.Sprintf("version %d", atomic.LoadInt32(&ctl.versions)), Observed: fmt.Sprintf("version %d", got)})
+	}
+}
+
+// sendsDuringExec: while a command started with Exec runs, the event loop is parked; Send still
+// completes only when the loop has taken the message, so messages sent by one goroutine during
+// the exec reach Update in order ("order"), and a message whose Send completed is not lost when
+// the program is killed right afterwards ("kill").
+func sendsDuringExec(out *scenOut, end string, procs int) {
+	ctl := newRecCtl()
+	running := make(chan struct{})
+	release := make(chan struct{})
+	fe := &fakeExec{run: func(f *fakeExec) error { close(running); <-release; return nil }}
+	ctl.onUpdate = func(m tea.Msg, v int) tea.Cmd {
+		if u, ok := m.(userMsg); ok && u.Sender == 9 {
+			return tea.Exec(fe, nil)
+		}
+		return nil
+	}
+	pr, pw, _ := os.Pipe() // a file-descriptor input that stays silent
+	defer pr.Close()
+	defer pw.Close()
+	run := startProgram(ctl, nil, tea.WithInput(pr), tea.WithoutSignalHandler())
+	desc := fmt.Sprintf("sends-during-exec end=%s procs=%d", end, procs)
+	run.p.Send(userMsg{9, 0})
+	select {
+	case <-running:
+	case <-time.After(3 * time.Second):
+		out.fail(finding{Property: "C01", Class: "harness", What: "exec did not start", Input: desc})
+		run.p.Kill()
+		return
+	}
+	const n = 48
+	completed := make(chan int, n)
+	go func() {
+		for k := 0; k < n; k++ {
+			run.p.Send(userMsg{5, k})
+			completed <- k
+		}
+	}()
+	time.Sleep(20 * time.Millisecond) // the sender is blocked in its first Send (the loop is parked)
+	done := 0
+	if end == "kill" {
+		// let exactly the Sends complete that complete, then kill at once
+		close(release)
+		select {
+		case <-completed:
+			done = 1
+		case <-time.After(3 * time.Second):
+		}
+		run.p.Kill()
+	} else {
+		close(release)
+		for done < n {
+			select {
+			case <-completed:
+				done++
+			case <-time.After(3 * time.Second):
+				out.fail(finding{Property: "C01", Class: "new", What: "Send blocked although the program is running", Input: desc, Observed: fmt.Sprintf("%d of %d sends completed", done, n)})
+				run.p.Kill()
+				run.wait(3 * time.Second)
+				return
+			}
+		}
+		run.p.Quit()
+	}
+	if !run.wait(5 * time.Second) {
+		out.fail(finding{Property: "C01", Class: "new", What: "Run did not return", Input: desc, Observed: goroutineDump()})
+		return
+	}
+	out.record(desc, desc)
+	var got []int
+	for _, u := range updatesOf(ctl.log.snapshot()) {
+		var sdr, seq int
+		if _, err := fmt.Sscanf(u, "u%d.%d", &sdr, &seq); err == nil && sdr == 5 {
+			got = append(got, seq)
+		}
+	}
+	for i := 1; i < len(got); i++ {
+		if got[i] != got[i-1]+1 {
+			out.fail(finding{Property: "C01", Class: "new", What: "messages sent by one goroutine (during an Exec) reached Update out of order, duplicated or with gaps", Input: desc, Observed: fmt.Sprint(got)})
+			break
+		}
+	}
+	if len(got) > 0 && got[0] != 0 {
+		out.fail(finding{Property: "C01", Class: "new", What: "the first message sent during an Exec did not reach Update first", Input: desc, Observed: fmt.Sprint(got)})
+	}
+	if len(got) < done {
+		out.fail(finding{Property: "C01", Class: "new", What: "a message whose Send completed (during / right after an Exec) before the program began terminating never reached Update", Input: desc,
+			Expected: fmt.Sprintf(">= %d messages", done), Observed: fmt.Sprint(got)})
 	}
 }
 
@@ -319,6 +414,62 @@ func scenCmds(out *scenOut, r *rng, thorough bool) {
 	}
 	for _, n := range []int{3, 70, 300} {
 		manyBlocked(out, n)
+	}
+	for _, shape := range []string{"returned-twice", "twice-in-one-tree", "batchmsg-sent-twice"} {
+		batchReuse(out, shape)
+	}
+}
+
+// batchReuse: the SAME Batch command value (or the same BatchMsg value) occurs more than once:
+// returned by two Updates, twice inside one tree, or sent twice as a message. Every occurrence
+// runs every command of the batch once and delivers every result once.
+func batchReuse(out *scenOut, shape string) {
+	ctl := newRecCtl()
+	var ca, cb int32
+	a := func() tea.Msg { atomic.AddInt32(&ca, 1); return cmdMsg{"ra"} }
+	b := func() tea.Msg { atomic.AddInt32(&cb, 1); return cmdMsg{"rb"} }
+	inner := tea.Batch(a, nil, b)
+	ctl.onUpdate = func(m tea.Msg, v int) tea.Cmd {
+		u, ok := m.(userMsg)
+		if !ok || u.Sender != 0 {
+			return nil
+		}
+		switch shape {
+		case "returned-twice":
+			if u.Seq == 0 || u.Seq == 1 {
+				return inner
+			}
+		case "twice-in-one-tree":
+			if u.Seq == 0 {
+				return tea.Batch(inner, inner)
+			}
+		}
+		return nil
+	}
+	run := startProgram(ctl, nil, tea.WithInput(nil), tea.WithoutSignalHandler())
+	desc := "the same Batch(a, nil, b) value " + shape
+	switch shape {
+	case "returned-twice":
+		run.p.Send(userMsg{0, 0})
+		waitFor(2*time.Second, func() bool { return ctl.log.count("update-exit", "c:r") >= 2 })
+		run.p.Send(userMsg{0, 1})
+	case "twice-in-one-tree":
+		run.p.Send(userMsg{0, 0})
+	case "batchmsg-sent-twice":
+		bm := inner().(tea.BatchMsg)
+		run.p.Send(bm)
+		waitFor(2*time.Second, func() bool { return ctl.log.count("update-exit", "c:r") >= 2 })
+		run.p.Send(bm)
+	}
+	okAll := waitFor(3*time.Second, func() bool { return ctl.log.count("update-exit", "c:r") >= 4 })
+	time.Sleep(10 * time.Millisecond)
+	run.p.Quit()
+	run.wait(3 * time.Second)
+	out.record("batch-reuse/"+shape, desc)
+	na, nb, nres := atomic.LoadInt32(&ca), atomic.LoadInt32(&cb), ctl.log.count("update-exit", "c:r")
+	if !okAll || na != 2 || nb != 2 || nres != 4 {
+		out.fail(finding{Property: "C02", Class: "new", What: "a Batch value that occurs twice did not run each of its commands once per occurrence (or their results were not all delivered once)", Input: desc,
+			Expected: "a invoked 2, b invoked 2, 4 results", Observed: fmt.Sprintf("a invoked %d, b invoked %d, %d results", na, nb, nres)})
 	}
 }
 
@@ -917,11 +1068,71 @@ func scenFilter(out *scenOut, r *rng, thorough bool) {
 	}
 	filterSignal(out)
 	for _, verdict := range []string{"keep", "drop", "replace"} {
+		filterNestedSeq(out, verdict)
 		for _, nested := range []bool{false, true} {
 			for _, from := range []string{"update", "init"} {
 				filterCmdBatch(out, verdict, nested, from)
 			}
 		}
+	}
+}
+
+// filterNestedSeq: a sequence message that a command INSIDE a running sequence produced
+// (Sequence nested in Sequence) is a message like any other: the filter is consulted for it and
+// its verdict obeyed.
+func filterNestedSeq(out *scenOut, verdict string) {
+	ctl := newRecCtl()
+	var seqs int32
+	var ran [4]int32
+	leaf := func(k int, id string) tea.Cmd {
+		return func() tea.Msg { atomic.AddInt32(&ran[k], 1); return cmdMsg{id} }
+	}
+	cmd := tea.Sequence(leaf(0, "na"), tea.Sequence(leaf(1, "nb"), leaf(2, "nc")), leaf(3, "nd"))
+	filter := func(name string, m tea.Msg) tea.Msg {
+		if _, ok := tea.VerifSequenceCmds(m); ok {
+			if atomic.AddInt32(&seqs, 1) == 2 { // the nested one
+				switch verdict {
+				case "drop":
+					return nil
+				case "replace":
+					return userMsg{78, 0}
+				}
+			}
+		}
+		return m
+	}
+	ctl.onUpdate = func(m tea.Msg, v int) tea.Cmd {
+		if u, ok := m.(userMsg); ok && u.Sender == 0 && u.Seq == 0 {
+			return cmd
+		}
+		return nil
+	}
+	run := startProgram(ctl, nil, tea.WithInput(nil), tea.WithoutSignalHandler(), loggingFilter(ctl, filter))
+	desc := "filter verdict=" + verdict + " for the sequence message produced inside a running sequence: Sequence(a, Sequence(b, c), d)"
+	run.p.Send(userMsg{0, 0})
+	waitFor(3*time.Second, func() bool { return ctl.log.has("update-exit", "c:nd") })
+	time.Sleep(20 * time.Millisecond)
+	run.p.Quit()
+	if !run.wait(5 * time.Second) {
+		out.fail(finding{Property: "C16", Class: "new", What: "program did not end", Input: desc, Observed: goroutineDump()})
+		return
+	}
+	out.record(desc, desc)
+	if got := atomic.LoadInt32(&seqs); got != 2 {
+		out.fail(finding{Property: "C16", Class: "new", What: "filter not consulted exactly once for every sequence message (also the one a command inside a sequence produced)", Input: desc,
+			Expected: "2", Observed: fmt.Sprint(got)})
+	}
+	wantInner := int32(1)
+	if verdict != "keep" {
+		wantInner = 0
+	}
+	if atomic.LoadInt32(&ran[0]) != 1 || atomic.LoadInt32(&ran[3]) != 1 || atomic.LoadInt32(&ran[1]) != wantInner || atomic.LoadInt32(&ran[2]) != wantInner {
+		out.fail(finding{Property: "C16", Class: "new", What: "the commands of a nested sequence did not follow the filter's verdict on its message", Input: desc,
+			Expected: fmt.Sprintf("a,d once; b,c %d times", wantInner), Observed: fmt.Sprint(ran)})
+	}
+	ups := strings.Join(updatesOf(ctl.log.snapshot()), ",")
+	if verdict == "replace" && strings.Count(ups, "u78.0") != 1 {
+		out.fail(finding{Property: "C16", Class: "new", What: "the message substituted for a nested sequence message did not reach Update exactly once", Input: desc, Observed: ups})
 	}
 }
 
